@@ -394,6 +394,7 @@ deriving DecidableEq, Repr
 		c.facts["C18.coreRecvPacket"] = fn
 	}
 	sb.WriteString(c.c18Programs())
+	sb.WriteString(c.c18Inventory())
 	sb.WriteString("end FxVerif.Gen.C18\n")
 	c.write("C18.lean", sb.String())
 }
